@@ -2,6 +2,7 @@
 from __future__ import annotations
 
 import ast
+import re
 
 from ..core import is_self_attr, INCONCLUSIVE, OK, VIOLATION, Ctx, canon, is_self_attr, local_defs
 from ..model import AnalysisError, body_walk, norm
@@ -75,6 +76,45 @@ def r12_2(ctx: Ctx):
         if "size" in o.construct or "seed-appended" in o.construct:
             o.rule = "R12.2"
             obs.append(o)
+    # Individual.create_population(n, ...) returns exactly n individuals: one per index, none filtered out
+    cp = ctx.prog.own_method("Individual", "create_population")
+    cps = cp.params()
+    npar = cps[1] if len(cps) > 1 else "pop_size"
+    cdefs = local_defs(cp)
+    rets = [r for r in body_walk(cp.node) if isinstance(r, ast.Return) and r.value is not None]
+    st_cp, why_cp = INCONCLUSIVE, "cannot read how many individuals create_population returns"
+    if len(rets) == 1:
+        v = rets[0].value
+        hops = 0
+        while isinstance(v, ast.Name) and len(cdefs.get(v.id, [])) == 1 and hops < 3:
+            v = cdefs[v.id][0]
+            hops += 1
+        if isinstance(v, ast.ListComp):
+            gens = list(v.generators)
+            # a chained generator local: [.. for g in genomes] with genomes = (init() for _ in range(n))
+            while len(gens) == 1 and isinstance(gens[0].iter, ast.Name) and len(cdefs.get(gens[0].iter.id, [])) == 1 and isinstance(cdefs[gens[0].iter.id][0], (ast.GeneratorExp, ast.ListComp)):
+                inner = cdefs[gens[0].iter.id][0]
+                gens = list(inner.generators) + [ast.comprehension(target=gens[0].target, iter=ast.List(elts=[], ctx=ast.Load()), ifs=gens[0].ifs, is_async=0)]
+            src = canon(gens[0].iter)
+            filt = [c for g in gens for c in g.ifs]
+            none_filter = filt and all(isinstance(c, ast.Compare) and len(c.ops) == 1 and isinstance(c.ops[0], (ast.IsNot, ast.NotEq)) and isinstance(c.comparators[0], ast.Constant) and c.comparators[0].value is None for c in filt)
+            can_be_none = False
+            if none_filter:
+                # does any initializer pyhms ships hand out None?
+                for g_ in ctx.prog.all_functions():
+                    if g_.module.name == "pyhms.initializers" and g_.parent is not None:
+                        for r_ in body_walk(g_.node):
+                            if isinstance(r_, ast.Return) and (r_.value is None or (isinstance(r_.value, ast.Constant) and r_.value.value is None)):
+                                can_be_none = True
+            if filt and none_filter and not can_be_none:
+                st_cp, why_cp = OK, ""
+            elif filt:
+                st_cp, why_cp = VIOLATION, f"create_population drops the draws for which `{norm(filt[0])}` fails: it returns FEWER than `{npar}` individuals and every later generation of the deme keeps that smaller size"
+            elif src == f"range({npar})" and len([g for g in gens if not (isinstance(g.iter, ast.List) and not g.iter.elts)]) == 1:
+                st_cp, why_cp = OK, ""
+            elif re.fullmatch(r"range\(" + re.escape(npar) + r"[-+]\d+\)|range\(\d+\)", src):
+                st_cp, why_cp = VIOLATION, f"create_population builds `{src}` individuals instead of `{npar}`"
+    obs.append(ctx.ob("R12.2", cp, rets[0] if rets else cp.node, status=st_cp, detail=f"create_population(n, ...) returns exactly n individuals" if st_cp == OK else why_cp, construct="create-population-size"))
     # topk returns min(k, n) rows: slices [-k:] / [:k] of one argsort
     tk = ctx.prog.own_method("Population", "topk")
     k = tk.params()[1]
